@@ -103,7 +103,7 @@ func init() {
 				Args: func(tier string, l *Loaded) [][]int64 { return [][]int64{{0, 2, 0, 1}} }},
 		}}
 	properties["C03"] = &PropertySpec{ID: "C03",
-		Rule:        "shapes incl. whole line/file/word, regex literals, named loops, replace, multi-command (harness/C03/c03.go) x texts of length 0..T: ASCII with column claim (quick 3, thorough 5) and all 256 byte values without column claim (quick 3, thorough 4); 10 skip/take/last shapes with multi-byte matches at T = 4 (thorough 5); the 149 generated capture programs of C02 (captures whose path can be abandoned) with C03's assertions (variables are substrings of the value) at T = 3 (thorough 4)",
+		Rule:        "shapes incl. whole line/file/word, regex literals, named loops, replace, multi-command (harness/C03/c03.go) x texts of length 0..T: ASCII with column claim (quick 3, thorough 5) and all 256 byte values without column claim (quick 3, thorough 4); 10 skip/take/last shapes with multi-byte matches at T = 4 (thorough 5); the 149 generated capture programs of C02 (captures whose path can be abandoned) with C03's assertions (variables are substrings of the value) at T = 3 (thorough 4); long inputs: 4 programs on texts of k lines, k symbolic in [30,34], [62,66], [126,130] (thorough up to [1022,1026]), closed-form offsets / lines / columns / numbers",
 		Assumptions: []string{"column claim for ASCII inputs only (as the property states)"},
 		Groups: []JobGroup{
 			{Name: "c03-ascii", Overlay: libOverlay("C03/c03.go"), Pkg: "libvore", Entry: "VerifC03", PanicOK: true,
@@ -121,6 +121,20 @@ func init() {
 			{Name: "c03-captures", Overlay: libOverlay("C02/c02.go", "C03/c03.go", "C03/c03_captures.go"), Pkg: "libvore", Entry: "VerifC03Captures", PanicOK: true,
 				Args: func(tier string, l *Loaded) [][]int64 {
 					return seqArgs(countOf(l, "libvore", "VerifC03CapturesCount"), tOf(tier, 3, 4))
+				}},
+			{Name: "c03-long", Overlay: libOverlay("C03/c03.go", "C03/c03_long.go"), Pkg: "libvore", Entry: "VerifC03Long", PanicOK: true, MaxFailures: 3, Budget: 400_000_000,
+				Args: func(tier string, l *Loaded) [][]int64 {
+					var out [][]int64
+					bases := []int64{30, 62, 126}
+					if tier == "thorough" {
+						bases = []int64{14, 30, 62, 126, 254, 510, 1022}
+					}
+					for c := int64(0); c < 4; c++ {
+						for _, b := range bases {
+							out = append(out, []int64{c, b, 5})
+						}
+					}
+					return out
 				}},
 			{Name: "c03-twin", Overlay: libOverlay("C03/c03.go"), Pkg: "libvore", Entry: "VerifC03", Twin: true, PanicOK: true,
 				Args: func(tier string, l *Loaded) [][]int64 { return [][]int64{{2, 2, 1, 1}} }},
